@@ -7,7 +7,7 @@ See function `flatten()` for details.
 import copy
 from pydantic.dataclasses import dataclass
 from dataclasses import field, replace
-from typing import Dict, Generator, List, Optional
+from typing import Dict, Generator, List, Optional, Tuple
 
 import hdl21 as h
 from .signal import _copy_to_internal
@@ -56,9 +56,13 @@ def walk(
     m: h.Module,
     parents: List[h.Instance],
     conns: Optional[Dict[str, h.Signal]] = None,
+    nets: Optional[Dict[Tuple[Tuple[str, ...], str], h.Signal]] = None,
 ) -> Generator[FlattenedInstance, None, None]:
     if conns is None:
         conns = {**m.signals, **m.ports}
+    if nets is None:
+        # The signals created for internal nets, one object per (instance-path, name)
+        nets = dict()
     for inst in m.instances.values():
         new_conns = {}
         new_parents = parents + [inst]
@@ -77,8 +81,11 @@ def walk(
                 raise TypeError(f"Invalid connection {sig}")
 
             new_sig_name = ":".join([p.name for p in parents] + [key])
+            net = (tuple(p.name for p in parents), key)
             if key in conns:
                 target_sig = conns[key]
+            elif net in nets:
+                target_sig = nets[net]
             elif key in m.signals:
                 target_sig = replace(
                     _copy_to_internal(m.signals[key]), name=new_sig_name
@@ -87,12 +94,14 @@ def walk(
                 target_sig = replace(_copy_to_internal(m.ports[key]), name=new_sig_name)
             else:
                 raise ValueError(f"signal {key} not found")
+            if key not in conns:
+                nets[net] = target_sig
             new_conns[src_port_name] = target_sig
 
         if isinstance(inst.of, (h.PrimitiveCall, h.ExternalModuleCall)):
             yield FlattenedInstance(inst, new_parents, new_conns)
         else:
-            yield from walk(inst.of, new_parents, new_conns)
+            yield from walk(inst.of, new_parents, new_conns, nets)
 
 
 def _find_signal_or_port(m: h.Module, name: str) -> h.Signal:
@@ -181,14 +190,23 @@ def flatten(m: h.Instantiable) -> h.Instantiable:
         new_module.add(copy.copy(port))
 
     # add all signals to the root level
+    # Signals and instances are re-created by their path-joined names.
+    # Two different nets, or two different instances, which come out with the same name cannot be flattened.
+    named: Dict[str, h.Signal] = {**m.ports}
     for n in nodes:
         for sig in n.conns.values():
             sig_name = sig.name
-            if sig_name not in new_module.ports:
+            if named.setdefault(sig_name, sig) is not sig:
+                msg = f"Cannot flatten {m.name}: more than one net would be named `{sig_name}`"
+                raise RuntimeError(msg)
+            if sig_name not in new_module.ports and sig_name not in new_module.signals:
                 new_module.add(copy.copy(sig))
 
     # add all connections to the root level with names resolved
     for n in nodes:
+        if n.make_name() in new_module.instances:
+            msg = f"Cannot flatten {m.name}: more than one instance would be named `{n.make_name()}`"
+            raise RuntimeError(msg)
         new_inst = new_module.add(n.inst.of(), name=n.make_name())
 
         for src_port_name, sig in n.conns.items():
